@@ -48,6 +48,34 @@ theorem Dp0Dpsi_confluent (x : ℝ) : Dp0Dpsi x x = sn x := by simp [Dp0Dpsi]
 /-- non-vacuity of the product branches: at `x = 1, y = 2` the helpers take their cancellation-free forms -/
 example : Dsn (1 : ℝ) 2 * (2 - 1) = sn (2 : ℝ) - sn 1 := Dsn_dd 1 2
 
+/-! ### `DClenshaw` is the divided difference of the Clenshaw sums -/
+
+/-- for every coefficient list and all angles `ζ₁ ≠ ζ₂`:
+    `DClenshaw(sinp, ζ₂ − ζ₁, sin ζ₁, cos ζ₁, sin ζ₂, cos ζ₂, c)·(ζ₂ − ζ₁) = Clenshaw(sinp, ζ₂, c) − Clenshaw(sinp, ζ₁, c)`
+    (the code's `Delta ≠ 1` reading; with `Delta = 1` it returns the plain difference, `dclenshaw_diff`) -/
+theorem dclenshaw_dd (sinp : Bool) (z1 z2 : ℝ) (cs : List ℝ) (hne : z2 - z1 ≠ 0) (h1 : z2 - z1 ≠ 1) :
+    DClenshaw sinp (z2 - z1) (sin z1) (cos z1) (sin z2) (cos z2) cs * (z2 - z1)
+      = clenshaw sinp (sin z2) (cos z2) cs - clenshaw sinp (sin z1) (cos z1) cs :=
+  dclenshaw_dd' sinp z1 z2 cs hne h1
+
+/-- `Delta = 1`: the plain difference of the two sums, for any two points on the unit circle -/
+theorem dclenshaw_diff (sinp : Bool) (s1 c1 s2 c2 : ℝ) (cs : List ℝ) (h1 : s1 ^ 2 + c1 ^ 2 = 1) (h2 : s2 ^ 2 + c2 ^ 2 = 1) :
+    DClenshaw sinp 1 s1 c1 s2 c2 cs = clenshaw sinp s2 c2 cs - clenshaw sinp s1 c1 cs :=
+  dclenshaw_diff' sinp s1 c1 s2 c2 cs h1 h2
+
+/-- the matrix recurrence itself: its state is (mean, half divided difference) of the two scalar Clenshaw recurrences
+    with `X₂ = Xa + D·Xb`, `X₁ = Xa − D·Xb`, for every coefficient list -/
+theorem dclen_pair (Xa Xb D : ℝ) (cs : List ℝ) :
+    (dclen Xa Xb (D * D) cs).1.1 = ((clen (Xa + D * Xb) cs).1 + (clen (Xa - D * Xb) cs).1) / 2 ∧
+    (dclen Xa Xb (D * D) cs).1.2 * D = ((clen (Xa + D * Xb) cs).1 - (clen (Xa - D * Xb) cs).1) / 2 ∧
+    (dclen Xa Xb (D * D) cs).2.1 = ((clen (Xa + D * Xb) cs).2 + (clen (Xa - D * Xb) cs).2) / 2 ∧
+    (dclen Xa Xb (D * D) cs).2.2 * D = ((clen (Xa + D * Xb) cs).2 - (clen (Xa - D * Xb) cs).2) / 2 :=
+  dclen_inv Xa Xb D cs
+
+example : ((3:ℝ)/5) ^ 2 + ((4:ℝ)/5) ^ 2 = 1 := by norm_num
+
+example : (0.3 : ℝ) - 0.1 ≠ 0 ∧ (0.3 : ℝ) - 0.1 ≠ 1 := by norm_num
+
 /-! ### beyond the pole: the two-step reduction of `GenPosition` -/
 
 /- `NormContract norm` (Proofs/Rhumb.lean): the contract of `Math::AngNormalize` (C16; decided exactly by the driver on every
